@@ -230,6 +230,14 @@ def run(cx):
         inst.site("<statics>", None, "%d statics: %s" % (len(st), ", ".join(s.split("::")[-1] for s in st)[:160]))
         for p, why in static_issues(R):
             inst.violation(p, why.split(" ")[0] + " static", "static `%s`: %s (memory reachable from it is never returned)" % (p, why))
+    # buffers of a connection are released on the abort paths: a reassembly slot the window passes is cleared
+    # whatever its state, and a connection that leaves the maps is put in its terminal state (which drops the
+    # HalfConnection and everything it owns)
+    from props.shared import window_walks, leave_implies_terminal
+    window_walks(cx, "C19.e")
+    obligations += len(cx.instances[-1].sites)
+    leave_implies_terminal(cx, "C19.f")
+    obligations += len(cx.instances[-1].sites)
     cx.extra["obligations"] = obligations
 
 
